@@ -185,7 +185,17 @@ func c14Gen(cfg config, emit func(Case)) {
 										var monKind, monDetail string
 										if conn != nil {
 											_ = conn.WriteMessage(websocket.TextMessage, []byte("hello"))
-											time.Sleep(3 * time.Millisecond)
+											// the callbacks run on the server's goroutines: give them time under load, without slowing the common case
+											for w := 0; w < 4000; w++ {
+												s.mu.Lock()
+												done := s.newC[id]-before >= 1 && s.msgs[id] >= 1
+												s.mu.Unlock()
+												if done {
+													break
+												}
+												time.Sleep(500 * time.Microsecond)
+											}
+											time.Sleep(time.Millisecond)
 										}
 										time.Sleep(time.Millisecond)
 										s.mu.Lock()
